@@ -51,12 +51,16 @@ def doc_case(draw):
         if draw(st.booleans()):
             op["requestBody"] = {"required": True, "content": {"application/json": {"schema": {"type": "object", "required": ["a"], "properties": {"a": {"type": "integer", "minimum": 5}, "b": {"type": "string", "minLength": 2, "format": "date"}}, "additionalProperties": False}}}}
         ops.append({"path": f"/u{i}", "method": "post" if "requestBody" in op else "get", "op": op})
-    return {"ops": ops, "links": draw(st.booleans()), "fail_over": draw(st.sampled_from([None, 50, 100]))}
+    # `twin`: two methods on one path with the same small body space (what a too coarse request identity would confuse)
+    return {"ops": ops, "links": draw(st.booleans()), "fail_over": draw(st.sampled_from([None, 50, 100])), "twin": draw(st.booleans())}
 
 
 def build_doc(d) -> dict:
     paths = {o["path"]: {o["method"]: o["op"]} for o in d["ops"]}
     paths["/x"] = {"get": {"parameters": [{"name": "x", "in": "query", "required": True, "schema": {"type": "integer", "minimum": 0, "maximum": 200}}], "responses": {"200": {"description": "ok"}}}}
+    if d.get("twin"):
+        body = {"required": True, "content": {"application/json": {"schema": {"type": "object", "properties": {"n": {"type": "integer", "minimum": 0, "maximum": 3}}, "required": ["n"], "additionalProperties": False}}}}
+        paths["/tw"] = {"post": {"requestBody": body, "responses": {"200": {"description": "ok"}}}, "put": {"requestBody": body, "responses": {"200": {"description": "ok"}}}}
     if d["links"]:
         paths["/c"] = {"post": {"operationId": "c", "requestBody": {"required": True, "content": {"application/json": {"schema": {"type": "object", "properties": {"n": {"type": "integer"}}, "required": ["n"]}}}},
                                 "responses": {"201": {"description": "ok", "links": {"l": {"operationId": "g", "parameters": {"id": "$response.body#/id"}}}}}}}
@@ -69,9 +73,17 @@ def make_script(d):
 
     from vfw.harness import loopback
 
+    slow = {"done": False}
+
     def script(req, ordinal):
         if req.path == "/c":
             return loopback.json_reply(201, {"id": 7})
+        if req.path == "/tw" and req.method == "POST" and not slow["done"]:
+            # same answer, later: with several workers the sibling operation overtakes this one
+            slow["done"] = True
+            reply = loopback.json_reply(200, {"id": 7})
+            reply.sleep = 0.4
+            return reply
         if req.path == "/x" and d["fail_over"] is not None:
             try:
                 x = int(parse_qs(req.query).get("x", ["0"])[0])
@@ -90,9 +102,11 @@ def pair_case(draw):
         "doc": draw(doc_case()),
         "phases": draw(st.sampled_from([["examples"], ["coverage"], ["fuzzing"], ["stateful"], ["examples", "coverage", "fuzzing", "stateful"], ["coverage", "fuzzing"]])),
         "modes": draw(st.sampled_from([["positive"], ["negative"], ["positive", "negative"]])),
-        "seed": draw(st.integers(0, 100000)),
+        # boundary seeds on purpose: 0 is a valid seed (and falsy), seeds beyond 2**32 / 2**64 are accepted by the CLI
+        "seed": draw(st.one_of(st.integers(0, 100000), st.sampled_from([0, 0, 1, 2**32 + 5, 2**70 + 3]))),
         "max_examples": draw(st.integers(3, 8)),
         "workers": draw(st.sampled_from([2, 3, 4])),
+        "unique": draw(st.booleans()),
     }
 
 
@@ -109,7 +123,7 @@ def failing(record):
 
 
 def _cfg(inp, workers=1):
-    return {"phases": inp["phases"], "modes": inp["modes"], "seed": inp["seed"], "max_examples": inp["max_examples"], "stateful_step_count": 3, "workers": workers, "no_shrink": True, "checks": ["not_a_server_error"]}
+    return {"phases": inp["phases"], "modes": inp["modes"], "seed": inp["seed"], "max_examples": inp["max_examples"], "stateful_step_count": 3, "workers": workers, "no_shrink": True, "checks": ["not_a_server_error"], "unique_inputs": bool(inp.get("unique"))}
 
 
 def _nontrivial(inp, n_requests) -> bool:
